@@ -140,18 +140,26 @@ def oracle_tree(rep: Report, root, spec, akai, rng):
         if any(("/" in c or "\\" in c) for c in comps):
             rep.findings.append(Finding("ls-name-contains-separator", {"akai": akai, "spec": spec, "names": comps}))
             return
-        # the AKAI image upper-cases tokens: names that differ only in case (or a trailing colon) are one name to it
-        sibs = [c.safe_name for c in n.parent.children]
+        # the AKAI image upper-cases tokens: names that differ only in case (or a trailing colon) are one name to it.
+        # The check is made at every level of the path: an ancestor with such a sibling makes the path ambiguous too.
         norm = (lambda s: (root._sanitize_string(s)))
-        same = [s for s in sibs if norm(s) == norm(n.safe_name)]
-        if len(same) > 1:
-            if akai and len({s.strip() for s in same}) == len(same):
-                # artificial: the AKAI image upper-cases tokens (and drops a trailing colon), but real AKAI
-                # names are upper-case and colon-free; such a collision cannot come from an AKAI image
-                rep.feat("akai_case_fold_ambiguity_skipped")
-                continue
-            rep.findings.append(Finding("ls-sibling-names-equal-after-normalisation", {"akai": akai, "spec": spec, "names": same}))
-            return
+        skip = False
+        cur = n
+        while cur is not None and getattr(cur, "parent", None) is not None and cur is not root:
+            sibs = [c.safe_name for c in cur.parent.children]
+            same = [s for s in sibs if norm(s) == norm(cur.safe_name)]
+            if len(same) > 1:
+                if akai and len({s.strip() for s in same}) == len(same):
+                    # artificial: the AKAI image upper-cases tokens (and drops a trailing colon), but real AKAI
+                    # names are upper-case and colon-free; such a collision cannot come from an AKAI image
+                    rep.feat("akai_case_fold_ambiguity_skipped")
+                    skip = True
+                    break
+                rep.findings.append(Finding("ls-sibling-names-equal-after-normalisation", {"akai": akai, "spec": spec, "names": same}))
+                return
+            cur = cur.parent
+        if skip:
+            continue
         for sep in ("/", "\\"):
             for pad in ("", "  "):
                 for trail in ("", sep):
